@@ -25,6 +25,18 @@ class Handler:
         return " && ".join(conds(n, self.fn))
 
     def _read(self):
+        gv_calls = []
+        self._read_body(gv_calls)
+        if gv_calls and not self.traverse_all:
+            # guarded everywhere, but on EVERY path? (`if name is None: generic_visit; return` / `...; generic_visit`)
+            from .cfg import CFG
+            g = CFG(self.fn, lambda s: False)
+            marks = [n for n in g.nodes if n.stmt is not None and n.kind == "stmt" and any(c in list(ast.walk(n.stmt)) for c in gv_calls)]
+            if marks and not g.path_exists(g.entry, g.exit, avoid=marks, labels=("n", "t", "f")):
+                self.traverse_all = True
+                self.traverse_all_guard = None
+
+    def _read_body(self, gv_calls):
         for n in walk_local(self.fn):
             if isinstance(n, ast.Call) and isinstance(n.func, ast.Attribute) and isinstance(n.func.value, ast.Name) and n.func.value.id == "self":
                 if n.func.attr == "generic_visit":
@@ -33,6 +45,7 @@ class Handler:
                         self.traverse_all_guard = g      # children are only walked under a condition: whatever is bound inside them is missed otherwise
                     else:
                         self.traverse_all = True
+                    gv_calls.append(n)
                 elif n.func.attr == "visit" and n.args:
                     a = n.args[0]
                     if isinstance(a, ast.Attribute) and isinstance(a.value, ast.Name):
